@@ -283,8 +283,10 @@ impl TryFrom<u16> for WidthClass {
     type Error = String;
 
     fn try_from(value: u16) -> Result<Self, Self::Error> {
-        WidthClass::all_values()
-            .get((value - 1) as usize)
+        // 0 is not a width class; `value - 1` would overflow (a panic in debug builds)
+        value
+            .checked_sub(1)
+            .and_then(|idx| WidthClass::all_values().get(idx as usize))
             .copied()
             .ok_or_else(|| format!("Unsupported width class value: '{value}'"))
     }
@@ -346,6 +348,14 @@ mod tests {
         let mut sorted_pcts = pcts.clone();
         sorted_pcts.sort();
         assert_eq!(sorted_pcts, pcts);
+    }
+
+    #[test]
+    fn width_class_zero_is_an_error_not_a_panic() {
+        assert!(WidthClass::try_from(0).is_err());
+        assert_eq!(Ok(WidthClass::UltraCondensed), WidthClass::try_from(1));
+        assert_eq!(Ok(WidthClass::UltraExpanded), WidthClass::try_from(9));
+        assert!(WidthClass::try_from(10).is_err());
     }
 
     #[test]
